@@ -4,6 +4,7 @@ import (
 	"bytes"
 	"fmt"
 	"io"
+	"strconv"
 	"strings"
 
 	"github.com/ipld/go-ipld-prime/codec/dagcbor"
@@ -514,7 +515,33 @@ func c16Walking(c *core.Ctx, r *core.Rand) error {
 		})
 	}()
 	if err != nil || termOf(res) != want.Term() {
-		c.Fail("C16/walk-transform-differs", core.Replay{Kind: "oracle", Case: caseSel, Impl: termOfOrErr(res, err), Expected: want.Term(),
+		sig := "C16/walk-transform-differs"
+		// the recorded finding, exactly: a fields clause naming a list element by a NON-CANONICAL numeral ("01", "+1"): Walk
+		// resolves it through LookupBySegment (index 1) while WalkTransforming compares the iterator's segment "1" with the
+		// name.  Classified only when writing those names canonically makes the transform produce the expected tree.
+		if canon, changed := canonicalNumeralFields(spec); changed && err == nil {
+			if s3, st3 := core.CompileSel(canon); st3 == "" {
+				res3, err3 := func() (res datamodel.Node, err error) {
+					defer func() {
+						if x := recover(); x != nil {
+							err = fmt.Errorf("panic: %v", x)
+						}
+					}()
+					return traversal.WalkTransforming(n, s3, func(p traversal.Progress, m datamodel.Node) (datamodel.Node, error) {
+						if m.Kind() == datamodel.Kind_Int {
+							if i, err := m.AsInt(); err == nil && i < 1<<40 && i > -(1<<40) {
+								return basicnode.NewInt(i + 1), nil
+							}
+						}
+						return m, nil
+					})
+				}()
+				if err3 == nil && termOf(res3) == want.Term() {
+					sig = "C16/walk-transform-noncanonical-index-field"
+				}
+			}
+		}
+		c.Fail(sig, core.Replay{Kind: "oracle", Case: caseSel, Impl: termOfOrErr(res, err), Expected: want.Term(),
 			Detail: fmt.Sprintf("matched ints (per WalkMatching with the same selector): %d", matchedInts)})
 	}
 	c.Count(caseSel, matchedInts > 0)
@@ -575,4 +602,35 @@ func termOfOrErrSafe(n datamodel.Node, err error) (out string) {
 		}
 	}()
 	return termOfOrErr(n, err)
+}
+
+// canonicalNumeralFields rewrites the field names of every ExploreFields clause ("f" → "f>" → names) that are
+// non-canonical numerals ("01", "+1", "-0", "00") to their canonical decimal form.
+func canonicalNumeralFields(v core.Val) (core.Val, bool) {
+	changed := false
+	var walk func(x core.Val, inFields bool) core.Val
+	walk = func(x core.Val, inFields bool) core.Val {
+		out := x
+		if x.L != nil {
+			out.L = make([]core.Val, len(x.L))
+			for i, y := range x.L {
+				out.L[i] = walk(y, false)
+			}
+		}
+		if x.M != nil {
+			out.M = make([]core.KV, len(x.M))
+			for i, e := range x.M {
+				k := e.K
+				if inFields {
+					if n, err := strconv.ParseInt(string(k), 10, 64); err == nil && strconv.FormatInt(n, 10) != string(k) {
+						k = []byte(strconv.FormatInt(n, 10))
+						changed = true
+					}
+				}
+				out.M[i] = core.KV{K: k, V: walk(e.V, string(e.K) == "f>")}
+			}
+		}
+		return out
+	}
+	return walk(v, false), changed
 }
